@@ -102,6 +102,8 @@ class PathDomain(Domain):
             val = self._canon(stmt.value, env)
             for t in stmt.targets:
                 if isinstance(t, ast.Name):
+                    if norm_text(val) == norm_text(d[t.id] if d.get(t.id) is not None else t.id) and (t.id not in d or d[t.id] is not None):
+                        continue                # x = x (e.g. an inlined helper handing its argument back): nothing changes
                     d[t.id] = val
                     facts = frozenset(f for f in facts if not self._mentions(f[1], t.id))
                 elif isinstance(t, (ast.Tuple, ast.List)):
@@ -113,7 +115,16 @@ class PathDomain(Domain):
         elif isinstance(stmt, ast.AugAssign):
             events = self._calls(stmt.value, env, events)
             if isinstance(stmt.target, ast.Name):
-                d[stmt.target.id] = None
+                # x += e composes like x = x + e (the value text is what rules read; in-place vs rebinding is not modelled here)
+                cur = d.get(stmt.target.id, stmt.target.id) if stmt.target.id in d else stmt.target.id
+                if cur is None:
+                    d[stmt.target.id] = None
+                else:
+                    try:
+                        d[stmt.target.id] = ast.unparse(ast.BinOp(left=ast.parse(cur, mode='eval').body, op=stmt.op,
+                                                                  right=ast.parse(self._canon(stmt.value, env), mode='eval').body))
+                    except SyntaxError:
+                        d[stmt.target.id] = None
             else:
                 events = events + (('store', norm_text(self._canon(stmt.target, env)), stmt.lineno),)
         elif isinstance(stmt, ast.Expr):
